@@ -1,6 +1,12 @@
 ------------------------------ MODULE MC_Vers ------------------------------
-EXTENDS Vers, Json
+EXTENDS Vers, VersVariants, Json, SequencesExt
 \* one vector per range (emitted when its probe-0 behaviour finishes): the text for every scheme
 Emit == (phase = "done" /\ probe = 0) =>
           PrintT(<<"VEC", ToJson([cs |-> Cs(ops), texts |-> [s \in Schemes |-> VersText(s, Cs(ops))]])>>)
+\* C16: the same ranges with all their meaning-preserving spellings (emitted instead of Emit by the C16 run)
+CTexts(s, cs) == [i \in 1..Len(cs) |-> cs[i].op \o Chain(s)[cs[i].pos + 1]]
+EmitVariants == (phase = "done" /\ probe = 0) =>
+          \A s \in Schemes :
+            PrintT(<<"VEC", ToJson([scheme |-> s, cs |-> Cs(ops), base |-> VersText(s, Cs(ops)),
+                                    variants |-> SetToSeq(Variants(s, CTexts(s, Cs(ops))))])>>)
 =============================================================================
